@@ -121,23 +121,28 @@ def theorem_names(prop_file):
 
 
 def lean_audit(prop_id, prop_file):
-    """#print axioms on every theorem of the property file + forbidden-token grep on the
+    """#print axioms on every theorem of the property file(s) + forbidden-token grep on the
     whole library.  Returns dict(obligations, discharged, problems, axioms)."""
-    names, examples, _ = theorem_names(prop_file)
-    mod = prop_file[:-5].replace('/', '.')
+    files = [prop_file] if isinstance(prop_file, str) else list(prop_file)
+    names, examples = [], 0
+    for pf in files:
+        ns, ex, _ = theorem_names(pf)
+        names += ns
+        examples += ex
     os.makedirs(os.path.join(LEAN_DIR, '.lake', 'audit'), exist_ok=True)
     af = os.path.join(LEAN_DIR, '.lake', 'audit', f'{prop_id}.lean')
     with open(af, 'w') as f:
-        f.write(f'import {mod}\n')
+        for pf in files:
+            f.write(f'import {pf[:-5].replace("/", ".")}\n')
         for n in names:
             f.write(f'#print axioms {n}\n')
     p = subprocess.run(['lake', 'env', 'lean', af], cwd=LEAN_DIR, capture_output=True, text=True)
     out = p.stdout + p.stderr
     problems = []
     axioms = {}
-    for m in re.finditer(r"'([^']+)' depends on axioms: \[([^\]]*)\]", out, flags=re.S):
+    for m in re.finditer(r"'(\S+)' depends on axioms: \[([^\]]*)\]", out, flags=re.S):
         axioms[m.group(1)] = [a.strip() for a in m.group(2).replace('\n', ' ').split(',') if a.strip()]
-    for m in re.finditer(r"'([^']+)' does not depend on any axioms", out):
+    for m in re.finditer(r"'(\S+)' does not depend on any axioms", out):
         axioms[m.group(1)] = []
     discharged = 0
     for n in names:
@@ -492,7 +497,8 @@ def run_property(mod, prop_id, tier, seed, replay=None):
                 mod.on_build_failure(ctx, out)
             ctx.fail('proof', 'lean-build', 'lake build Knee driver', {}, out[-3000:])
         else:
-            audit = lean_audit(prop_id, mod.PROP_FILE)
+            pfiles = getattr(mod, 'PROP_FILES', mod.PROP_FILE)
+            audit = lean_audit(prop_id, pfiles)
             for pr in audit['problems']:
                 ctx.fail('proof', 'axiom-audit', mod.PROP_FILE, {}, pr)
             if tier == 'thorough':
